@@ -962,6 +962,19 @@ class Pass2(CompilePass):
                     'READ can only have builtin types',
                     node=lvalue)
 
+    def _check_filespec(self, node):
+        if node.filespec.type != Type.STRING:
+            raise CompileError(EC.TYPE_MISMATCH, node=node.filespec)
+
+    def process_kill_pre(self, node):
+        self._check_filespec(node)
+
+    def process_bload_pre(self, node):
+        self._check_filespec(node)
+
+    def process_bsave_pre(self, node):
+        self._check_filespec(node)
+
     def process_view_print_pre(self, node):
         if node.top_expr and not node.top_expr.type.is_numeric:
             raise CompileError(
